@@ -14,6 +14,11 @@ import LMV.Driver.Util
     c18sseq <K> <L> <k> <M1 … Mk> <L symbols>
         one striped sequence, a fresh view after 0, 1, …, k calls of `calculate` with motifs of M1 … Mk rows
         -> the k+1 views, joined by " ; "
+    c18copy <how> <a c18idx | c18buf | c18sseq line>
+        the same observations on a COPY: how = copy (`obj.copy()`) | copycopy (`copy.copy(obj)`) |
+        deepcopy (`copy.deepcopy(obj)`), optionally `+used` (the object was used before the copy was taken;
+        for c18sseq the copy is taken after each of the 0..k reuses)
+        -> the answer of the inner line | AttributeError | TypeError
     c18stale <observation> <K> <L> <M> <L symbols>
         a view exported BEFORE calculate() with a motif of M rows and read after it showed
         `same` | `differs` | `BufferError`  -> adm-ok | adm-bad …   (known finding: the stale view)
@@ -21,7 +26,20 @@ import LMV.Driver.Util
 namespace LMV.Driver.C18
 open LMV LMV.PyView LMV.Driver
 
-def ops : List String := ["c18idx", "c18buf", "c18sseq", "c18stale"]
+def ops : List String := ["c18idx", "c18buf", "c18sseq", "c18stale", "c18copy"]
+
+/-- the classes with `copy()` and `__copy__` in lib.rs: `EncodedSequence` and `StripedSequence` -/
+def hasCopy (cls : String) : Bool := cls == "enc" || cls == "sseq"
+
+/-- outcome of the copy operation itself: `none` = a copy is returned (a derived `Clone`: same logical
+    contents, same view).  No class defines `__deepcopy__` or `__reduce__`, so `copy.deepcopy` — and
+    `copy.copy` of a class without `__copy__` — ends in `TypeError: cannot pickle`; a missing `copy`
+    method is an `AttributeError`. -/
+def copyOutcome (how cls : String) : Option String :=
+  let h := (how.splitOn "+").headD ""
+  if h == "deepcopy" then some "TypeError"
+  else if hasCopy cls then none
+  else if h == "copy" then some "AttributeError" else some "TypeError"
 
 /-- alignment of `Row` on x86-64 (`repr(align(32))`) -/
 def align : Nat := 32
@@ -62,7 +80,8 @@ def show1 (v : View1) (items : Except String (List Nat)) : String :=
   | .ok xs => s!"{head} items {xs.length} hash {fnvNats xs.reverse}"
   | .error e => s!"{head} exposes: {e}"
 
-def handle (toks : List String) : String :=
+/-- `copy`: the observations are made on a copy of the object (for c18sseq: taken after each reuse) -/
+def handleOn (copy : Bool) (toks : List String) : String :=
   match toks with
   | "c18idx" :: cls :: w :: rows :: len :: idx :: rest =>
     let w := parseNat! w
@@ -97,6 +116,7 @@ def handle (toks : List String) : String :=
     let R := (L + cols - 1) / cols
     let val := fun r c => if c * R + r < L then syms.getD (c * R + r) 0 else K - 1
     let step := fun (s : PySeq) =>
+      let s := if copy then s.copy else s
       let v := s.view align
       show2 v (read2 v s.dataRows s.cols 1 val)
     let (_, outs) := Ms.foldl (fun (acc : PySeq × List String) M =>
@@ -112,5 +132,14 @@ def handle (toks : List String) : String :=
     else if (staleAdmissible .repaired s (parseNat! m)).contains obs then "adm-ok"
     else s!"adm-bad {obs} not admitted"
   | _ => "bad-case"
+
+def handle (toks : List String) : String :=
+  match toks with
+  | "c18copy" :: how :: op :: rest =>
+    let cls := if op == "c18sseq" then "sseq" else rest.headD ""
+    (match copyOutcome how cls with
+     | some exc => exc
+     | none => handleOn true (op :: rest))
+  | _ => handleOn false toks
 
 end LMV.Driver.C18
